@@ -353,6 +353,22 @@ def run(c, facts, tier):
             witness=wit,
         )
 
+        # a primary with several argument words: every word but the last must end at a word boundary as well (`-xattr-match 'a'b`
+        # is one malformed word, not the two arguments `a` and `b`): what stands between two arguments proves a blank was there
+        fr = kw.flatten_rest(g, a.rest)
+        kept = [i_ for i_, x in enumerate(fr) if x["keep"]]
+        for n_, (i_, j_) in enumerate(zip(kept, kept[1:])):
+            pre = {"t": "seq", "l": None, "items": [{"p": {"t": "lit", "l": None, "s": a.lit}, "keep": True}] + [{"p": x["n"], "keep": x["keep"]} for x in fr[:j_]]}
+            ok_w = ends_at_boundary(g, pre, bnd)
+            c.ob(
+                "C05.boundary",
+                a.site,
+                "%s: argument %d ends at a word boundary" % (a.lit, n_ + 1),
+                ok_w,
+                "between argument %d and argument %d of %r stands %s; %s" % (n_ + 1, n_ + 2, a.lit, ", ".join(peg.show(x["n"]) for x in fr[i_ + 1 : j_]) or "nothing", "at least one blank is required there" if ok_w else "the first argument can stop in front of any character (a closing quote), so one malformed word is read as two arguments"),
+                witness="%s 'a'b" % a.lit if not ok_w else None,
+            )
+
     # the leading-options pass applies the option parser outside token(): same obligation there
     from . import c06 as _c06
 
